@@ -10,6 +10,7 @@
 (*   UserTag(n, k)    git tag [-a] n                (lightweight/annotated)*)
 (*   Alias(n, m)      git tag n m   (m annotated: n and m SHARE one tag    *)
 (*                    object: major <- full, or an alias <- major)         *)
+(*   Branch(n, w)     a branch / remote-tracking ref NAMED LIKE A TAG (v3)  *)
 (*   Touch(d)         make the work tree dirty in way d                    *)
 (*   Bump(v)          write another VERSION into mockery-tools.env (kept   *)
 (*                    outside the work tree); only in the simulated long   *)
@@ -34,6 +35,9 @@ CONSTANTS TagNames,     \* names the maintainer may create
           Requests,     \* VERSION strings a behaviour may start with (the input)
           Flags,        \* {"absent", "true", "false"}
           BumpTo,       \* VERSION strings the maintainer may switch to between invocations ({} = never)
+          BranchChoices,\* <<name, where>>: refs/heads/<name> (where = "branch"; "current" = HEAD attached to it) or
+                        \*   refs/remotes/origin/<name> ("remote") that the maintainer may create: non-tag refs
+                        \*   whose short names equal the tags the tool is about to create or move
           TreeNames,    \* names the maintainer may (mistakenly) put on a TREE object: a version-named ref that is no commit
           InitCommits,  \* the repository starts with commits 1..InitCommits: 1 <- 2 (branch main) and 1 <- 3 (branch
           InitHead,     \*   side), HEAD on main; so tags can sit on commits that are no ancestors of HEAD
@@ -46,15 +50,17 @@ VARIABLES tags,      \* name -> [c |-> commit, k |-> kind, s |-> name stored in 
           version,   \* requested version (VERSION in mockery-tools.env); changes only by Bump
           pc,        \* "idle" | "full" | "major" | "exit"
           run,       \* the invocation in progress: [flag, pre, exit]
+          brs,       \* NON-tag refs whose short name is a tag name: name -> "branch" | "current" | "remote"
           hist       \* observation: user-level operations so far (hidden by VIEW)
 
-vars == <<tags, head, ncommits, dirty, version, pc, run, hist>>
-view == <<tags, head, ncommits, dirty, version, pc, run>>
+vars == <<tags, head, ncommits, dirty, version, pc, run, brs, hist>>
+view == <<tags, head, ncommits, dirty, version, pc, run, brs>>
 
 NoRun == [flag |-> "none"]
 State == [tags |-> tags, head |-> head, dirty |-> dirty, version |-> version, other |-> "same"]
 
 Init == /\ tags = << >>
+        /\ brs = << >>
         /\ head = InitHead
         /\ ncommits = InitCommits
         /\ dirty = "clean"
@@ -76,18 +82,18 @@ Commit == /\ Idle /\ ncommits < MaxCommits
           /\ head' = ncommits + 1
           /\ dirty' = IF dirty = "ignored" THEN "ignored" ELSE "clean"
           /\ Log([op |-> "commit"])
-          /\ UNCHANGED <<tags, version, pc, run>>
+          /\ UNCHANGED <<tags, version, pc, run, brs>>
 
 Checkout(c) == /\ Idle /\ c \in 1..ncommits /\ c # head /\ Clean(dirty)
                /\ head' = c
                /\ Log([op |-> "checkout", c |-> c])
-               /\ UNCHANGED <<tags, ncommits, dirty, version, pc, run>>
+               /\ UNCHANGED <<tags, ncommits, dirty, version, pc, run, brs>>
 
 UserTag(n, k) == /\ Idle /\ n \notin DOMAIN tags
                  /\ k = "tree" => n \in TreeNames          \* `git tag n HEAD^{tree}`: c = 0, no commit behind the ref
                  /\ tags' = Extend(tags, n, [c |-> IF k = "tree" THEN 0 ELSE head, k |-> k, s |-> ""])
                  /\ Log([op |-> "usertag", name |-> n, kind |-> k])
-                 /\ UNCHANGED <<head, ncommits, dirty, version, pc, run>>
+                 /\ UNCHANGED <<head, ncommits, dirty, version, pc, run, brs>>
 
 \* a second ref on the tag OBJECT of an existing annotated tag (`git tag n m`): the floating major tag made
 \* from a release tag (`git tag v3 v3.0.1`), and ANY name made from the major tag (`git tag latest v3`,
@@ -98,17 +104,25 @@ Alias(n, m) == /\ Idle /\ n \notin DOMAIN tags /\ m \in DOMAIN tags /\ tags[m].k
                /\ tags' = Extend(tags, n, [c |-> tags[m].c, k |-> "annotated",
                                             s |-> IF tags[m].s = "" THEN m ELSE tags[m].s])   \* name inside the shared object
                /\ Log([op |-> "alias", name |-> n, src |-> m])
-               /\ UNCHANGED <<head, ncommits, dirty, version, pc, run>>
+               /\ UNCHANGED <<head, ncommits, dirty, version, pc, run, brs>>
+
+\* `git branch v3`, `git checkout -b v3`, `git update-ref refs/remotes/origin/v3 HEAD`: the ref namespace now holds
+\* a non-tag ref with the short name of a tag.  Nothing in the contract or in the code under test depends on it
+\* (tags are looked up under refs/tags/ only); it is part of "everything else", which must stay as it is.
+Branch(n, w) == /\ Idle /\ <<n, w>> \in BranchChoices /\ n \notin DOMAIN brs /\ Clean(dirty)
+                /\ brs' = Extend(brs, n, w)
+                /\ Log([op |-> "branch", name |-> n, where |-> w])
+                /\ UNCHANGED <<tags, head, ncommits, dirty, version, pc, run>>
 
 Touch(d) == /\ Idle /\ dirty = "clean"
             /\ dirty' = d
             /\ Log([op |-> "touch", kind |-> d])
-            /\ UNCHANGED <<tags, head, ncommits, version, pc, run>>
+            /\ UNCHANGED <<tags, head, ncommits, version, pc, run, brs>>
 
 Bump(v) == /\ Idle /\ v # version
            /\ version' = v
            /\ Log([op |-> "bump", version |-> v, was |-> version])
-           /\ UNCHANGED <<tags, head, ncommits, dirty, pc, run>>
+           /\ UNCHANGED <<tags, head, ncommits, dirty, pc, run, brs>>
 
 -----------------------------------------------------------------------------
 (* the tagger, shaped like the code *)
@@ -144,20 +158,20 @@ RunGate(flag) ==
      /\ run' = [flag |-> flag, pre |-> State,
                 exit |-> CASE g = "error" -> "error" [] g = "nothing" -> "nothing" [] OTHER -> "ok"]
      /\ pc' = IF g = "go" THEN "full" ELSE "exit"
-  /\ UNCHANGED <<tags, head, ncommits, dirty, version, hist>>
+  /\ UNCHANGED <<tags, head, ncommits, dirty, version, hist, brs>>
 
 \* tag.go:67-84: DeleteTag (failure ignored) then CreateTag with a Tagger => annotated tag at repo.Head()
 RunTagFull ==
   /\ pc = "full"
   /\ tags' = Extend(tags, FullName(version), [c |-> head, k |-> "annotated", s |-> ""])
   /\ pc' = "major"
-  /\ UNCHANGED <<head, ncommits, dirty, version, run, hist>>
+  /\ UNCHANGED <<head, ncommits, dirty, version, run, hist, brs>>
 
 RunTagMajor ==
   /\ pc = "major"
   /\ tags' = Extend(tags, MajorName(version), [c |-> head, k |-> "annotated", s |-> ""])
   /\ pc' = "exit"
-  /\ UNCHANGED <<head, ncommits, dirty, version, run, hist>>
+  /\ UNCHANGED <<head, ncommits, dirty, version, run, hist, brs>>
 
 \* the existing full version tags of the requested major with their relation to the request (used by the harness
 \* only to make sure every (request, existing tag) relation TLC generated is among the replayed cases)
@@ -177,13 +191,14 @@ RunExit ==
           same |-> SameMajorFull(run.pre),                              \* the tags the version gate is about
           allowed |-> Allowed(run.pre, run.flag),                       \* the contract's verdict table
           impl |-> [tags |-> tags, exit |-> run.exit]])                 \* what the code-shaped layer predicts
-  /\ UNCHANGED <<tags, head, ncommits, dirty, version>>
+  /\ UNCHANGED <<tags, head, ncommits, dirty, version, brs>>
 
 Next == \/ Commit
         \/ \E c \in 1..MaxCommits : Checkout(c)
         \/ \E n \in TagNames, k \in Kinds \cup {"tree"} : UserTag(n, k)
         \/ \E n \in TagNames, m \in TagNames : Alias(n, m)
         \/ \E d \in DirtyKinds : Touch(d)
+        \/ \E b \in BranchChoices : Branch(b[1], b[2])
         \/ \E v \in BumpTo : Bump(v)
         \/ \E f \in Flags : RunGate(f)
         \/ RunTagFull \/ RunTagMajor \/ RunExit
@@ -200,6 +215,7 @@ SimNext == \/ /\ Len(hist) % 2 = 1
                  \/ \E n \in TagNames, k \in Kinds \cup {"tree"} : UserTag(n, k)
                  \/ \E n \in TagNames, m \in DOMAIN tags : Alias(n, m)
                  \/ \E d \in DirtyKinds : Touch(d)
+                 \/ \E b \in BranchChoices : Branch(b[1], b[2])
                  \/ \E v \in BumpTo : Bump(v)
            \/ RunTagFull \/ RunTagMajor \/ RunExit
 SimSpec == Init /\ [][SimNext]_vars
